@@ -454,6 +454,15 @@ static int lzh_decompress(struct kwajd_stream *lzh)
     RESTORE_BITS;
     memset(&lzh->window[0], LZSS_WINDOW_FILL, LZSS_WINDOW_SIZE);
 
+    /* a stream that ends inside a list of code lengths leaves the rest of
+     * that list unread: start from known lengths, not from whatever the
+     * allocator left in the structure */
+    memset(&lzh->MATCHLEN1_len[0], 0, sizeof(lzh->MATCHLEN1_len));
+    memset(&lzh->MATCHLEN2_len[0], 0, sizeof(lzh->MATCHLEN2_len));
+    memset(&lzh->LITLEN_len[0],    0, sizeof(lzh->LITLEN_len));
+    memset(&lzh->OFFSET_len[0],    0, sizeof(lzh->OFFSET_len));
+    memset(&lzh->LITERAL_len[0],   0, sizeof(lzh->LITERAL_len));
+
     /* read 6 encoding types (for byte alignment) but only 5 are needed */
     for (i = 0; i < 6; i++) READ_BITS_SAFE(types[i], 4);
 
